@@ -673,6 +673,9 @@ class NetworkXPropertyGraph(ABCPropertyGraph, NetworkXMixin):
         # deal with properties
         # remove all properties, including 'contracted' new property
         self.storage.get_graph(self.graph_id).nodes[real_node].clear()
+        # networkx leaves the same bookkeeping on every link both nodes had in common
+        for _, _, link_props in self.storage.get_graph(self.graph_id).edges(real_node, data=True):
+            link_props.pop('contraction', None)
 
         # construct a new set of properties
         new_props = dict()
